@@ -144,6 +144,7 @@ let parse_program s : call list =
             | 't' -> let (a, d) = two c in SAddFilesAs (a, d)
             | 'd' -> let (a, d) = two c in SAddData (a, d)
             | 'S' -> let (a, d) = two c in SSassRef (a, d)
+            | 'C' -> let (a, d) = two c in SSassCss (a, d)
             | _ -> failwith "scall" in
           sc r' (x :: acc)
         | _ -> (List.rev acc, l) in
